@@ -5,7 +5,7 @@ import struct
 from hypothesis import strategies as st
 
 from harness import build, gen, simnet, wire, httpref
-from harness.runner import Prop, Enumeration, held, failed
+from harness.runner import Prop, Enumeration, held, failed, with_wsopts
 from props.c04 import deflate_reply
 
 B = wire.build_frame
@@ -299,7 +299,10 @@ class C07(Prop):
         depth = 3 if tier == "quick" else 4
         return [Enumeration("histories_depth_%d" % depth, lambda: self.history_cases(depth), exhaustive=True),
                 Enumeration("histories_with_one_failed_write", self.fault_cases, exhaustive=True),
-                Enumeration("histories_through_a_proxy", self.proxy_cases, exhaustive=True)]
+                Enumeration("histories_through_a_proxy", self.proxy_cases, exhaustive=True),
+                with_wsopts([{"steps": steps, "policy": pi, "opts": 0, "proxy": proxy, "tls": tls}
+                             for steps in (["reply", "text", "eof"], ["reply_deflate", "ping", "silence"], ["reply_403", "eof"])
+                             for pi in (0, 2) for proxy, tls in ((None, False), ("ok", False), ("ok", True))])]
 
     def strategy(self, tier):
         action = st.one_of(
@@ -332,6 +335,8 @@ class C07(Prop):
             "prelude": gen.prelude(),
             # a second live connection in the same process (interleaved with this one, or blocked in a send)
             "companion": gen.companion(6),
+            # constructor arguments that only shape the upgrade request
+            "wsopts_noise": gen.wsopts_noise(),
             "reactions": st.lists(rule, max_size=4), "copts": opts,
             "addrs": st.lists(st.sampled_from(["ok", "refused", "timeout", "sockerr"]), min_size=1, max_size=3),
             # "every fault": one non-fatal write fault (the k-th sendall times out / raises)
